@@ -1300,7 +1300,7 @@ func ruleC12R6(c *Ctx) {
 
 func reportR6(c *Ctx, fn *ssa.Function, in ssa.Instruction, where, src string) {
 	key := anchorName(fn) + "|" + where
-	if reason, ok := c12R6Reviewed[key]; ok {
+	if reason, ok := lookupReviewed(c12R6Reviewed, key); ok {
 		c.assumed("C12.R6", fn, "transient string stored into "+where, in.Pos(), "reviewed: "+reason)
 		return
 	}
